@@ -224,24 +224,62 @@ def check_shapes(ctx):
                              for n in own_nodes(cv.node))
   ctx.check(ok, "SHAPE", "SccCode.contains_value|value in self.get_values()", ctx.where(base.module, base.node),
             "membership in the member's value tuple", "SccCode.contains_value is no longer `value in self.get_values()`")
+  from ..consteval import NotConst as _NC, Raised as _R
+  from ..rules.minieval import MiniEval
   for kind, q in ENUMS.items():
     c = ix.cls(q)
     f = c.methods.get("find")
-    shape_ok = False
-    if f is not None:
-      src = unparse(f.node)
-      loops = [n for n in own_nodes(f.node) if isinstance(n, ast.For)]
-      if len(loops) == 1 and c.name in unparse(loops[0].iter):
-        body = loops[0].body
-        if len(body) == 1 and isinstance(body[0], ast.If) and "contains_value(" in unparse(body[0].test) \
-            and isinstance(body[0].body[0], ast.Return) and unparse(body[0].body[0].value) == unparse(loops[0].target):
-          shape_ok = True
-      # dict / comprehension idioms
-      if not shape_ok and ("next(" in src and "contains_value(" in src):
-        shape_ok = True
-    ctx.check(shape_ok, "SHAPE", f"{c.name}.find|first member containing the value", ctx.where(c.module, c.node),
-              "find() returns the first member whose value tuple contains the word",
-              f"{c.name}.find is no longer recognisably 'first member whose values contain the word' (unrecognised lookup)")
+    if f is None:
+      ctx.bad("SHAPE", f"{c.name}.find|first member containing the value", ctx.where(c.module, c.node), f"{c.name}.find vanished")
+      continue
+    # by interpretation, against the member table of the enumeration itself: for every code value any member lists (and some that
+    # none lists), find() gives the first member, in definition order, whose value tuple contains it, and get_channel() of that member
+    # gives channel 1 / 2 for the first / second value and no channel for any other (the field-2 forms of the control codes)
+    probe = MiniEval(ix)
+    members = [m_ for m_ in probe._enum_table(c, f).values()]
+    rows = []
+    for m_ in members:
+      v_ = m_.value
+      if not isinstance(v_, tuple):
+        try:
+          v_ = probe.ev(dict(ix.enum_members(c))[m_.name], {}, f, 1)
+        except (_NC, _R):
+          v_ = None
+      codes = tuple(x_ for x_ in (v_ or ()) if isinstance(x_, int) and not isinstance(x_, bool))[: (4 if kind == "control" else 2)]
+      rows.append((m_, codes))
+    if not rows or any(len(codes) < 2 for _m, codes in rows):
+      ctx.undecide("SHAPE", f"{c.name}: member values are not tuples of code values the rule can read")
+      continue
+    values = sorted({x_ for _m, codes in rows for x_ in codes}) + [0x0000, 0x1000, 0x9999, 0x7F7F]
+    gc = ix.lookup_method(c, "get_channel")
+    bad_, und_ = [], None
+    for v_ in values:
+      want = next((m_ for m_, codes in rows if v_ in codes), None)
+      try:
+        me = MiniEval(ix)
+        got = me.call(f, [v_])
+        ch = me.call(gc, [got, v_]) if (got is not None and gc is not None) else None
+      except _R:
+        bad_.append(f"find({v_:#06x}) raises")
+        continue
+      except _NC as ex_:
+        und_ = str(ex_)
+        break
+      if got != want:
+        bad_.append(f"find({v_:#06x}) is {got!r} instead of {want!r}")
+      elif want is not None:
+        codes = next(codes for m_, codes in rows if m_ == want)
+        want_ch = "CHANNEL_1" if v_ == codes[0] else ("CHANNEL_2" if v_ == codes[1] else None)
+        got_ch = getattr(ch, "name", None)
+        if got_ch != want_ch:
+          bad_.append(f"{want!r}.get_channel({v_:#06x}) is {got_ch} instead of {want_ch}")
+    if und_ is not None:
+      ctx.undecide("SHAPE", f"{c.name}.find: not in the interpreted subset ({und_})")
+    else:
+      ctx.check(not bad_, "SHAPE", f"{c.name}.find|first member containing the value", ctx.where(c.module, c.node),
+                f"interpreted on {len(values)} code values: first member listing the value; channel 1 / 2 for its first / second value, none otherwise",
+                f"{c.name}, interpreted on the code values of its own members: " + "; ".join(bad_[:4]) + (f" (+{len(bad_) - 4} more)" if len(bad_) > 4 else "") +
+                ": a word is classified as another code, or data of the other channel / field is taken for this channel's")
     gv = ix.lookup_method(c, "get_values")
     fields = [unparse(e) for e in gv.node.body[-1].value.elts] if gv and isinstance(gv.node.body[-1], ast.Return) and isinstance(gv.node.body[-1].value, ast.Tuple) else []
     want = 4 if kind == "control" else 2
